@@ -1,7 +1,4 @@
-import HypnoModel.Drv.C17
-import HypnoModel.Drv.C13
-import HypnoModel.Drv.C08
-import HypnoModel.Drv.C20
+import HypnoModel.Drv.All
 /- line-protocol driver:  lake env lean --run Driver.lean < ops   (one op per line, one answer per line) -/
 def step (line : String) : String :=
   match Drv.words line with
@@ -11,6 +8,7 @@ def step (line : String) : String :=
   | "c08" :: a => Drv.C08.op a
   | "c08t" :: a => Drv.C08.opT a
   | "c08u" :: a => Drv.C08.opU a
+  | "c09" :: a => Drv.C09.op a
   | "c20f" :: a => Drv.C20.opF a
   | "c20c" :: a => Drv.C20.opC a
   | "c20a" :: a => Drv.C20.opA a
